@@ -218,6 +218,13 @@ func (ms *Modules) add(n Node) error {
 	default:
 		return fmt.Errorf("not a module or submodule: %s is of type %s", name, kind)
 	}
+	// Modules are filed under name@revision and under the bare name: a
+	// name with an '@' in it (never a YANG identifier) could be taken
+	// for the revision of another module, or the other way round,
+	// depending on which of the two is added first.
+	if strings.Contains(name, "@") {
+		return fmt.Errorf("%s: invalid %s name %q: '@' separates name and revision", Source(n), kind, name)
+	}
 
 	mod := n.(*Module)
 	fullName := mod.FullName()
